@@ -794,7 +794,7 @@ func doSetup(rc *runCfg) int {
 			return 2
 		}
 	}
-	if _, err := buildCtwork(); err != nil {
+	if _, err := buildCtwork(""); err != nil {
 		fmt.Fprintf(os.Stderr, "setup: %v\n", err)
 		return 2
 	}
